@@ -1086,3 +1086,9 @@ func init() {
 	reg("math/rand.Uint64", func(in *Interp, fr *Frame, fn *ssa.Function, a []Value) Value { return in.ts.Const(0x1234567, 64) })
 	reg("math/rand.Uint32", func(in *Interp, fr *Frame, fn *ssa.Function, a []Value) Value { return in.ts.Const(0x1234567, 32) })
 }
+
+func init() {
+	reg("internal/stringslite.Clone", func(in *Interp, fr *Frame, fn *ssa.Function, a []Value) Value {
+		return Str{append([]Value(nil), a[0].(Str).b...)}
+	})
+}
